@@ -138,7 +138,8 @@ def run(ctx):
         if label.startswith("shipped:"):
             stats["shipped_compared"].append({"text": label, "ground_instances": ninsts, "depth": depth, "cap": cap})
         cases.append(case)
-        owners.append({"P": P, "Q": Q, "reader": "ai-vs-up", "payload": payload, "info": info, "feats": feats, "label": label,
+        owners.append({"P": P, "Q": Q, "reader": "ai-vs-up",
+                       "rebuild": (lambda P2, Q2, depth=depth, cap=cap: io.build_case(P2, Q2, key_lower, depth, cap, keyP=key_lower, split_intervals=True)[0]), "payload": payload, "info": info, "feats": feats, "label": label,
                        "depth": depth, "cap": cap, "type_name": lambda t: t.name})
     io.tick(ctx, "implementation runs")
     codes = ctx.coq_codes(cases, "Corr_C18.code", imports=io.IMPORTS, shard=6, label="c21", timeout=1500) if cases else []
